@@ -6,6 +6,8 @@ import os, re, subprocess, tempfile, shutil
 ROOT = os.path.dirname(os.path.dirname(os.path.abspath(__file__)))
 # (property, unit regex, clause regex) -> scenarios to try, in order
 TABLE = [
+    ("C03", r"dispatch_A", r"zero_length|skipped", ["tiny_time_scale"]),
+    ("C06", r"cont_R", r".*", ["tiny_time_scale"]),
     ("C03", r"dispatch_R", r"first_output|handler", ["first_step_sign_and_overshoot"]),
     ("C11", r"dispatch_R", r"first_output|handler", ["first_step_sign_and_overshoot"]),
     ("C03", r"solout_R", r"steps\.", ["short_steps_reported", "first_step_sign_and_overshoot"]),
